@@ -159,7 +159,7 @@ def large_step_tree(run, rng, quick):
     from renormalizer.tn import BasisTree, TTNO, TTNS, TreeNodeBasis
     from renormalizer.utils import EvolveConfig, EvolveMethod
     done = 0
-    for _ in range(1 if quick else 4):
+    for _ in range(1 if quick else 3):
         n, nbas = 4, 4
         om = rng.uniform(0.8, 1.6, size=n)
         parent = [[-1, 0, 1, 2], [-1, 0, 0, 2], [-1, 0, 1, 1]][int(rng.integers(3))]
